@@ -56,10 +56,17 @@ def gen(rng, tier):
                     size = max(size * 2, need + 8)
                 if need <= size:
                     bpos = max(bpos, need)
-            elif r < 0.78:  # sprintbuf, short and > 128 bytes, no NUL inside
+            elif r < 0.78:  # sprintbuf, short and > 128 bytes; a third of them with NUL bytes inside
                 ln = rng.choice([0, 1, 126, 127, 128, 129, 300, rng.randint(0, 200)])
-                data = bytes(rng.randrange(1, 256) for _ in range(ln))
-                ops.append("F" + hexs(data))
+                data = bytearray(rng.randrange(1, 256) for _ in range(ln))
+                if ln and rng.random() < 0.34:
+                    for _ in range(rng.choice([1, 1, 2, 3])):
+                        data[rng.choice([0, ln - 1, ln // 2, rng.randrange(ln)])] = 0
+                    while data.count(0) > 3:
+                        data[data.index(0)] = 1
+                    ops.append("G" + hexs(bytes(data)))
+                else:
+                    ops.append("F" + hexs(bytes(data)))
                 need = bpos + ln + 1
                 if size <= need:
                     size = max(size * 2, need + 8)
@@ -111,7 +118,7 @@ def parse_obs(o):
 def spec_step(s, op):
     """the byte-array model of the property statement (independent of the Coq model)"""
     k = op[0]
-    if k == "A" or k == "F":
+    if k == "A" or k == "F" or k == "G":
         b = b"" if op[1:] == "-" else bytes.fromhex(op[1:])
         return s + b, len(s) + len(b) + 1
     if k == "N":
@@ -163,11 +170,11 @@ def oracle(line, meta, impl):
             if st["data"] != s:
                 return ("failed-op-changed", "failed op %s changed the contents" % op)
             continue
-        if op[0] in "AFN" and st["ret"] != req - 1 - len(s):
+        if op[0] in "AFGN" and st["ret"] != req - 1 - len(s):
             return ("ret", "append returned %d at %s" % (st["ret"], op))
         if st["data"] != want or st["bpos"] != len(want):
             return ("contents", "contents differ from the byte-array model after %s: got %s want %s" % (op, st["data"].hex()[:80], want.hex()[:80]))
-        if op[0] in "AFN" and (st["term"] != "1" or st["bpos"] >= st["size"]):
+        if op[0] in "AFGN" and (st["term"] != "1" or st["bpos"] >= st["size"]):
             return ("nul", "appended text not followed by NUL inside the allocation after %s" % op)
         if st["bpos"] > st["size"]:
             return ("bounds", "bpos beyond size after %s" % op)
